@@ -516,9 +516,13 @@ class TracerMixin:
         # Extract results as a column vector
         results = np.array([[self[x][t]] for x in names])
 
-        # If starting from an empty `Trace` or `reset`ting the `Trace`,
+        # If starting from an empty `Trace`, `reset`ting the `Trace` or
+        # recording a different set of variables from the one already there
+        # (whose results would otherwise be filed under the wrong names),
         # re-initialise the variable
-        if self[self.TRACE_NAME][t].is_empty() or reset:
+        current = self[self.TRACE_NAME][t]
+
+        if current.is_empty() or reset or list(current.names) != list(names):
             self[self.TRACE_NAME][t] = Trace(list(names))
 
         # Add the results to the `Trace`
